@@ -11,7 +11,7 @@ package main
 // Rows (tab separated):
 //   S  id  pkg  root  format  defs-sexp  vir-of-the-post-Go-chain-IR
 //   X  id  reason                                       (case not usable: not rendered / not compiled)
-//   D  id  kind  faultpath  shape  doc-json  doc-sexp  validate-reply  strict-reply  oracle-verdict
+//   D  id  kind  faultpath  shape  doc-json  doc-sexp  validate-reply  strict-reply  oracle-verdict  site-term
 // validate-reply: ok | invalid <path|op|bound-quarters;…> (sorted) | decerr | <raw reply>
 // strict-reply:   ok <json> | err <message> | <raw reply>
 
@@ -81,6 +81,12 @@ func c08ParseJSONPath(p string) ([]c08Step, bool) {
 //           (field names, [i], [key]); a "*" token stands for the one extra segment the
 //           generated union struct inserts (branch field name)
 func c08Walk(d *Defs, steps []c08Step, doc JV) (shape string, want []string, ok bool) {
+	shape, want, _, ok = c08WalkSite(d, steps, doc)
+	return
+}
+
+// c08WalkSite is c08Walk that also returns the source term at the end of the path.
+func c08WalkSite(d *Defs, steps []c08Step, doc JV) (shape string, want []string, site *Src, ok bool) {
 	parts := []string{}
 	cur := srcRef(d.Root)
 	node := &doc
@@ -90,7 +96,7 @@ func c08Walk(d *Defs, steps []c08Step, doc JV) (shape string, want []string, ok 
 		case SRef:
 			t := d.lookup(cur.Ref)
 			if t == nil {
-				return strings.Join(parts, "/"), want, false
+				return strings.Join(parts, "/"), want, cur, false
 			}
 			parts = append(parts, "ref("+t.Kind.String()+")")
 			cur = t
@@ -100,7 +106,7 @@ func c08Walk(d *Defs, steps []c08Step, doc JV) (shape string, want []string, ok 
 			want = append(want, "*")
 			// branch selected by the document's discriminator
 			if node == nil || node.K != 'o' {
-				return strings.Join(parts, "/"), want, i == len(steps)
+				return strings.Join(parts, "/"), want, cur, i == len(steps)
 			}
 			dv, has := node.get(cur.Disc)
 			next := (*Src)(nil)
@@ -112,7 +118,7 @@ func c08Walk(d *Defs, steps []c08Step, doc JV) (shape string, want []string, ok 
 				}
 			}
 			if next == nil {
-				return strings.Join(parts, "/"), want, i == len(steps)
+				return strings.Join(parts, "/"), want, cur, i == len(steps)
 			}
 			cur = next
 			continue
@@ -128,20 +134,20 @@ func c08Walk(d *Defs, steps []c08Step, doc JV) (shape string, want []string, ok 
 				}
 			}
 			if next == nil {
-				return strings.Join(parts, "/"), want, i == len(steps)
+				return strings.Join(parts, "/"), want, cur, i == len(steps)
 			}
 			cur = next
 			continue
 		}
 		if i == len(steps) {
 			parts = append(parts, cur.Kind.String())
-			return strings.Join(parts, "/"), want, true
+			return strings.Join(parts, "/"), want, cur, true
 		}
 		st := steps[i]
 		switch cur.Kind {
 		case SStruct:
 			if st.isIdx {
-				return strings.Join(parts, "/"), want, false
+				return strings.Join(parts, "/"), want, cur, false
 			}
 			var f *Field
 			for k := range cur.Fields {
@@ -151,9 +157,19 @@ func c08Walk(d *Defs, steps []c08Step, doc JV) (shape string, want []string, ok 
 			}
 			if f == nil {
 				parts = append(parts, "struct."+st.key+"(undeclared)")
-				return strings.Join(parts, "/"), want, i == len(steps)-1
+				return strings.Join(parts, "/"), want, cur, i == len(steps)-1
 			}
-			parts = append(parts, "struct."+st.key)
+			attrs := "opt"
+			if f.Required {
+				attrs = "req"
+			}
+			if f.Nullable {
+				attrs += ",null"
+			}
+			if f.Default != nil {
+				attrs += ",dflt"
+			}
+			parts = append(parts, "struct."+st.key+"{"+attrs+"}")
 			want = append(want, "."+st.key)
 			cur = f.Ty
 			if node != nil && node.K == 'o' {
@@ -168,7 +184,7 @@ func c08Walk(d *Defs, steps []c08Step, doc JV) (shape string, want []string, ok 
 			}
 		case SArray:
 			if !st.isIdx {
-				return strings.Join(parts, "/"), want, false
+				return strings.Join(parts, "/"), want, cur, false
 			}
 			parts = append(parts, "array")
 			want = append(want, "["+strconv.Itoa(st.idx)+"]")
@@ -198,11 +214,11 @@ func c08Walk(d *Defs, steps []c08Step, doc JV) (shape string, want []string, ok 
 				node = nil
 			}
 		default:
-			return strings.Join(parts, "/"), want, false
+			return strings.Join(parts, "/"), want, cur, false
 		}
 		i++
 	}
-	return strings.Join(parts, "/"), want, false
+	return strings.Join(parts, "/"), want, cur, false
 }
 
 func c08KindFits(d *Defs, s *Src, v JV) bool {
@@ -354,7 +370,9 @@ func c08CanonValidate(reply string) (string, []c08Viol) {
 
 var c08ConstraintKinds = map[string]bool{"min-1": true, "max+1": true, "minLength-1": true, "maxLength+1": true}
 var c08StrictKinds = map[string]bool{"undeclaredKey": true, "missingRequired": true, "nullRequired": true, "wrongType": true,
-	"wrongDiscriminator": true, "absentDiscriminator": true}
+	"wrongDiscriminator": true, "absentDiscriminator": true,
+	// only in pinned cases: null at an array-element / map-value position, the document `null`
+	"nullElem": true, "nullDoc": true}
 
 // c08Oracle is the property itself, on the real outcomes.
 func c08Oracle(kind string, want []string, wantOK bool, vcanon string, viols []c08Viol, strict string) string {
@@ -372,6 +390,9 @@ func c08Oracle(kind string, want []string, wantOK bool, vcanon string, viols []c
 			return "FAIL strict-rejected-valid"
 		}
 	case c08ConstraintKinds[kind]:
+		if !wantOK {
+			return "ok unresolvable-fault-path" // only possible for hand-written / shrunk cases
+		}
 		if !strictOK {
 			return "FAIL strict-rejected-faultless"
 		}
@@ -437,19 +458,50 @@ func init() {
 		}
 		defer lab.Close()
 		type cs struct {
-			c    *LabCase
-			docs []c08Doc
+			c     *LabCase
+			docs  []c08Doc
+			fixed bool // documents given, not drawn
 		}
 		cases := []*cs{}
-		err = iterDefs(args, func(i int, d *Defs) error {
-			for _, f := range formats {
-				c := lab.AddCase(d, f)
-				cases = append(cases, &cs{c: c})
+		if pf, ok := args["pinned"]; ok {
+			// pinned cases: format \t defs-sexp \t kind \t json-path \t document   (consecutive
+			// lines with the same format+defs share one generated package)
+			var cur *cs
+			curKey := ""
+			for ln, line := range readLines(pf) {
+				if strings.HasPrefix(line, "#") {
+					continue
+				}
+				f := strings.Split(line, "\t")
+				if len(f) != 5 {
+					return fmt.Errorf("%s line %d: 5 tab-separated fields expected", pf, ln+1)
+				}
+				if key := f[0] + "\t" + f[1]; key != curKey {
+					d, err := parseDefsSexp(f[1])
+					if err != nil {
+						return fmt.Errorf("%s line %d: %w", pf, ln+1, err)
+					}
+					cur = &cs{c: lab.AddCase(d, f[0]), fixed: true}
+					cases = append(cases, cur)
+					curKey = key
+				}
+				doc, err := parseJV([]byte(f[4]))
+				if err != nil {
+					return fmt.Errorf("%s line %d: %w", pf, ln+1, err)
+				}
+				cur.docs = append(cur.docs, c08Doc{f[2], f[3], doc})
 			}
-			return nil
-		})
-		if err != nil {
-			return err
+		} else {
+			err = iterDefs(args, func(i int, d *Defs) error {
+				for _, f := range formats {
+					c := lab.AddCase(d, f)
+					cases = append(cases, &cs{c: c})
+				}
+				return nil
+			})
+			if err != nil {
+				return err
+			}
 		}
 		if err := lab.Build(); err != nil {
 			return err
@@ -486,10 +538,10 @@ func init() {
 			fmt.Fprintf(out, "S\t%s\t%s\t%s\t%s\t%s\t%s\n", c.ID, c.ID, c.Defs.Root, c.Format, c.Defs.sexp(), virSchemas(c.IRGo))
 			r := newRng(seed*7919 + uint64(c.Idx)*31 + 5)
 			dg := newDocGen(c.Defs, r, defaultDocOpts())
-			for n := 0; n < ndocs; n++ {
+			for n := 0; n < ndocs && !k.fixed; n++ {
 				k.docs = append(k.docs, c08Doc{"valid", "$", dg.validDoc()})
 			}
-			for n := 0; n < nfaults; n++ {
+			for n := 0; n < nfaults && !k.fixed; n++ {
 				fd, ok := dg.faultDoc(nil)
 				if !ok {
 					break
@@ -508,13 +560,20 @@ func init() {
 			d := s.k.docs[s.d]
 			vrep, srep := replies[2*si], replies[2*si+1]
 			vcanon, viols := c08CanonValidate(vrep)
-			shape, want, wantOK := "?", []string(nil), false
+			shape, want, wantOK, site := "?", []string(nil), false, "-"
 			if steps, ok := c08ParseJSONPath(d.path); ok {
-				shape, want, wantOK = c08Walk(s.k.c.Defs, steps, d.doc)
+				var st *Src
+				shape, want, st, wantOK = c08WalkSite(s.k.c.Defs, steps, d.doc)
+				if st != nil && st.Kind != SStruct {
+					site = st.sexp()
+				}
+			}
+			if c08ConstraintKinds[d.kind] && strings.HasSuffix(shape, "(undeclared)") {
+				wantOK = false // the constrained field itself is gone (shrinking candidates)
 			}
 			verdict := c08Oracle(d.kind, want, wantOK, vcanon, viols, srep)
-			fmt.Fprintf(out, "D\t%s\t%s\t%s\t%s\t%s\t%s\t%s\t%s\t%s\n", s.k.c.ID, d.kind, d.path, shape,
-				d.doc.json(), d.doc.sexp(), vcanon, srep, verdict)
+			fmt.Fprintf(out, "D\t%s\t%s\t%s\t%s\t%s\t%s\t%s\t%s\t%s\t%s\n", s.k.c.ID, d.kind, d.path, shape,
+				d.doc.json(), d.doc.sexp(), vcanon, srep, verdict, site)
 		}
 		for _, w := range lab.Warnings {
 			fmt.Fprintf(out, "W\t%s\n", labOneLine(w))
